@@ -607,6 +607,7 @@ def apply_model(sym, n, f, vals, mut_idx, st):
                     kinds.append((a[1].split("new_")[-1], a[2][0]))
                 else:
                     kinds.append(("?", a))
+            pieces, kinds = splice_display_adapters(sym, n, pieces, kinds)
             return V(fold_literal_args(pieces, tuple(kinds)))
     if p == "std::fmt::Arguments::from_str" and len(vals) == 1:
         return V(("fmtargs", (("txt", vals[0][2]),) if vals[0][0] == "lit" else (("dyn", vals[0]),), ()))
@@ -650,6 +651,46 @@ def apply_model(sym, n, f, vals, mut_idx, st):
     if p == "std::default::Default::default" and not vals:
         return V(default_of(n.get("ty")))
     return None
+
+
+def splice_display_adapters(sym, n, pieces, kinds):
+    """`write!(w, "{}", Indented(&frame))` with a crate-private adapter whose hand-written `Display` is one
+    `write!(f, "    {}", self.0)`: the adapter's template is spliced in place of the hole (what ends up in the output is the same
+    text). Only plain `{}` holes, only private types, only single-write impls without conditions."""
+    out_p, out_k, i = [], [], 0
+    changed = False
+    for pc in pieces:
+        if pc[0] != "hole":
+            out_p.append(pc)
+            continue
+        kd = kinds[i] if i < len(kinds) else None
+        i += 1
+        sp = None
+        if kd is not None and len(pc) == 1 and kd[0] == "display" and kd[1][0] == "adt" and len(sym.stack) < 12:
+            tname = kd[1][1]
+            cands = [b_ for q_, b_ in sym.fx.bodies.items() if b_.get("impl_trait") == "std::fmt::Display" and b_.get("name") == "fmt"
+                     and b_["krate"] in sym.krates and re.sub(r"<.*$", "", b_.get("impl_self") or "").split("::")[-1] == tname]
+            adt_ = [a_ for a_ in sym.fx.all_adts() if a_["path"].split("::")[-1] == tname and a_["path"].split("::")[0] in sym.krates]
+            if len(cands) == 1 and len(adt_) == 1 and not adt_[0].get("reachable_pub") and cands[0]["path"] not in sym.stack:
+                try:
+                    res = sym.eval_body(cands[0], [kd[1], ("place", "<fmt>", ())], St())
+                except Exception:
+                    res = None
+                if res and len(res) == 1 and not res[0][0].conds:
+                    effs = [e for e in res[0][0].effects if e[0] == "call"]
+                    if len(effs) == 1 and effs[0][1].endswith("write_fmt") and len(effs[0][2]) == 2 and effs[0][2][1][0] == "fmtargs" \
+                            and res[0][1][1] == ("mcall",) + tuple(effs[0][1:]):
+                        sp = effs[0][2][1]
+        if sp is None:
+            out_p.append(pc)
+            if kd is not None:
+                out_k.append(kd)
+        else:
+            changed = True
+            out_p += list(sp[1])
+            out_k += list(sp[2])
+    out_k += list(kinds[i:])
+    return (tuple(out_p), out_k) if changed else (pieces, kinds)
 
 
 def fold_literal_args(pieces, kinds):
